@@ -175,7 +175,8 @@ def cases(draw, tier):
             T = min(T, 80)  # keeps DOO's tree shallower than the mantissa: its default delta compares widths
         case = {"algo": aspec, "partition": pspec, "domain": dom, "rng": draw(gen.rngs(script_prob=0.3)), "T": T,
                 "reward": draw(gen.rewards(laws=["peak", "bump", "noise", "ties", "negative"], d=d, T=T))}
-        tt = draw(st.integers(-2 ** 20, 2 ** 20)) * draw(st.sampled_from([1.0, 0.5, 0.25, 1.0]))
+        tt = draw(st.one_of(st.integers(-2 ** 20, 2 ** 20), st.integers(-2 ** 30, 2 ** 30),
+                            st.sampled_from([2 ** 22, 2 ** 24, 2 ** 26, -2 ** 26, 2 ** 29]))) * draw(st.sampled_from([1.0, 0.5, 0.25, 1.0]))
         case["map"] = {"a": 1.0, "t": float(tt), "class": "exact"}
         return case
     case = draw(gen.run_case(names=[name], T_max=150 if quick else 400, n_range=(100, 300) if quick else (100, 600),
